@@ -86,7 +86,10 @@ func propC12(c *Ctx) {
 	}
 	c.ruleC12(m)
 	// an Annotation lexeme must end at the first "*/": the same rule as C08-ANNOTATION-FORMS
-	c.R.Only = func(rule string) bool { return rule == "C08-ANNOTATION-FORMS" || rule == "C08-COMMENT-RETURN" }
+	// ... and a document rendered with CR LF line ends must give the lexemes of the same document rendered with LF
+	c.R.Only = func(rule string) bool {
+		return rule == "C08-ANNOTATION-FORMS" || rule == "C08-COMMENT-RETURN" || rule == "C08-CRLF-ONE-LINE-END"
+	}
 	c.ruleC08Scanner(m)
 	c.R.Only = nil
 	c.ruleNextDirectiveRecognised("C12-NEXT-DIRECTIVE")
